@@ -70,10 +70,6 @@ func zzC07Router(ctx context.Context, method string, req Request) (Result, error
 
 func zzConnCloseNop(c *jsonrpc2.Connection) error { return nil }
 
-func zzIsSupported(v string) bool {
-	return v == protocolVersion20260728 || v == protocolVersion20251125 || v == protocolVersion20250618 || v == protocolVersion20250326 || v == protocolVersion20241105
-}
-
 func zzC07Negotiate() {
 	zzC06 = &zzC06Env{}
 	env := &zzC07Env{}
